@@ -89,7 +89,9 @@ CLAIMS = {
             "panics and has enough fuel for every stream and schedule (C08); an Err is always a failure event of the reader "
             "schedule (T01e: C01_T01e_error_only_from_reader) and a faultless reader never fails "
             "(C01_faultless_reader_never_fails; D6 was found by T01e and repaired, fe92d4b); from_bytes yields exactly the "
-            "lines the bytes determine, also for buffers of 1-2 bytes (C01_from_bytes_lines; D4 repaired, af28242); (2) lines to value - every parser of every decoder never panics, the seven simpler decoders "
+            "lines the bytes determine, also for buffers of 1-2 bytes (C01_from_bytes_lines; D4 repaired, af28242); the index "
+            "read_buf[len-2] of the UTF-16BE arm is in bounds and the line loop never panics and its rounds suffice "
+            "(C01_read_line_index_in_bounds, C01_read_line_loop_total; D5 repaired, b151c62); (2) lines to value - every parser of every decoder never panics, the seven simpler decoders "
             "and TimingPoints are total outright; (3) the curve NEVER panics for any libm record, fuel, control-point list "
             "(NaN/inf included) and length (stack invariant of the Bezier subdivision, slices, rotate/pop, calculate_length "
             "indices), at both buffer levels; hence decode_hit_objects / decode_beatmap and the byte-level from_bytes yield "
@@ -118,13 +120,16 @@ CLAIMS = {
     "C10": ("Unbounded theorems (coq/Properties/C10.v, axiom-free): UTF-8 / UTF-16LE / UTF-16BE codec round trips for every "
             "scalar string; unpaired surrogates become U+FFFD; the hand-written lossy loop of encoding.rs equals a one-pass "
             "lossy_spec automaton for ALL byte lists (never out of fuel; the unchecked prefix always validates) and is "
-            "local to the line (lossy (a++[LF]++b) = lossy a ++ [LF] ++ lossy b); the four encodings of a text give the "
-            "same lines for EVERY faultless schedule and every stream length outside the recorded class D5 (refuted with a "
-            "witness; D4 and D6 repaired); a "
-            "clean stream never fails in any encoding (C10_clean_stream_never_fails) and a UTF-16LE stream cut inside a "
-            "line feed decodes as the stream with the complete line feed plus one blank line (C10_odd_tail_decodes; D6 "
-            "repaired, fe92d4b). "
-            "Tie to the code: bit-exact correspondence of Encoding::decode, std from_utf8 error positions, decode_utf16, "
+            "local to the line (lossy (a++[LF]++b) = lossy a ++ [LF] ++ lossy b); FULL strength - for EVERY scalar-value text "
+            "(U+4E0A, U+0A41, U+010A, U+1040A ... included), every faultless schedule and each of the four encodings "
+            "read_all_lines = lines_of_text s, the BOM-less form under hd s <> U+FEFF only (C10_transparency, "
+            "C10_four_encodings_agree); the cut of an encoded text is the encoding of the cut of the text "
+            "(C10_utf16_cut_is_text_cut); only the code unit 000A ends a UTF-16 line; the lines of ARBITRARY UTF-16 byte "
+            "streams - odd length, misaligned 0x0A, lone surrogates - are stated explicitly (C10_utf16le/be_stream_lines); "
+            "a clean stream never fails in any encoding (C10_clean_stream_never_fails). D4, D5 and D6 were found here "
+            "and repaired (af28242, b151c62, fe92d4b); no recorded class is left and the formerly failing texts are Examples. "
+            "Tie to the code: texts with 0x0A-byte code units in every field, UTF-16 texts truncated at every byte, UTF-16 noise "
+            "against a unit-pairing reference; bit-exact correspondence of Encoding::decode, std from_utf8 error positions, decode_utf16, "
             "from_bom and the LineDecoder line stream; oracle: same Beatmap in all four encodings, per-line "
             "from_utf8_lossy / from_utf16_lossy, every scalar value as Title content (thorough).",
             "§6 C10"),
@@ -134,7 +139,8 @@ CLAIMS = {
             "chunks of 1-2 bytes, a BOM split over several chunks, every BufReader capacity) and every reader state "
             "read_all_lines gives the same lines = decode_stream bytes (C08_schedule_independent, "
             "C08_function_of_bytes[_any_state], C08_bufreader_any_capacity); read_bom collects the first three bytes "
-            "however they are chunked; Interrupted is transparent for all schedules; a faultless delivery never "
+            "however they are chunked; read_line assembles a UTF-16 line from several read_until calls (loop transcribed, fuel "
+            "per round) and stays a function of the bytes for all streams incl. malformed UTF-16; Interrupted is transparent for all schedules; a faultless delivery never "
             "yields an Err for any chunking, and an Err is a Fail event of the schedule "
             "(C08_faultless_never_fails, C08_error_only_from_schedule); never a panic, fuel sufficient. D4 (read_bom discarded chunks shorter than 3 bytes) was found by this check "
             "and repaired (af28242); the formerly failing deliveries are Examples. Tie to the code: a schedule-driven BufRead under LineDecoder, fixed chunk sizes 1..64, random "
@@ -147,7 +153,7 @@ CLAIMS = {
             "(never Done), since the driver reads to EOF; no error is made up (C09_error_only_from_reader); the extra-byte "
             "read after a UTF-16LE line feed returns a failure, retries Interrupted and treats EOF as end of line "
             "(C09_extra_byte_*); a failure while read_bom is still collecting its bytes is returned and Interrupted there is "
-            "retried (C09_bom_*); Interrupted transparent; writer side for an arbitrary chunk list: "
+            "retried (C09_bom_*), likewise inside the line-assembling loop of read_line (C09_line_loop_*); Interrupted transparent; writer side for an arbitrary chunk list: "
             "any failure or Ok(0) before everything is accepted yields the error (WriteZero for Ok(0)), no write is issued "
             "after the first failure, the accepted bytes are a prefix, short writes and Interrupted are retried, flush "
             "failure returned, never a panic. Tie to the code: error of each of 5 kinds at every byte offset of bundled "
@@ -327,7 +333,7 @@ def main():
             "enable": "harness/Cargo.toml depends on rosu-map with features=[\"verif-hooks\"]",
             "baseline_off_cmd": "cd /repo && cargo test --workspace --no-fail-fast --offline",
             "source_commits": ["f0db42e"],
-            "fix_commits": ["9215ca2", "26f4d98", "738fe2f", "4262585", "d78b06a", "fe92d4b", "0477e58", "af28242", "9dbef29"],
+            "fix_commits": ["9215ca2", "26f4d98", "738fe2f", "4262585", "d78b06a", "fe92d4b", "0477e58", "af28242", "9dbef29", "b151c62"],
             "add_only": True,
         },
         "engines": [{
